@@ -908,4 +908,619 @@ theorem common_type_fill_compute (s : Split σ α) (hv : s.Valid)
     obtain ⟨c, hc, rfl⟩ := hb
     simp [filled, hall c hc]
 
+/-! ### fill / request -/
+
+theorem splitRequest_fst (brs : List (Branch σ α)) :
+    (splitRequest brs).1 = brs.flatMap (fun b => (b.ops.request b.st).1) := by
+  induction brs with
+  | nil => rfl
+  | cons b r ih => simp [splitRequest, ih]
+
+theorem splitRequest_snd (brs : List (Branch σ α)) :
+    (splitRequest brs).2 = brs.map (fun b => { b with st := (b.ops.request b.st).2 }) := by
+  induction brs with
+  | nil => rfl
+  | cons b r ih => simp [splitRequest, ih]
+
+/-- one block over accepting fill/request branches = `fill` every value through the common
+`fill`, then the common `request()` -/
+theorem pass_fr (blk : List α) (act : List (Branch σ α)) (hk : ∀ b ∈ act, b.kind = .fillRequest)
+    (hacc : ∀ b ∈ act, Accepts b blk) :
+    outputs (foldB (stepBranch blk) act).1 = (splitRequest (act.map (fun b => filled b blk))).1 ∧
+    (foldB (stepBranch blk) act).2 = (splitRequest (act.map (fun b => filled b blk))).2 := by
+  rw [foldB_fst, foldB_snd, splitRequest_fst, splitRequest_snd, outputs_flatMap, List.flatMap_map,
+    List.map_map]
+  constructor
+  · apply flatMap_congr'
+    intro b hb
+    have := hacc b hb
+    unfold Accepts at this
+    simp [stepBranch, hk b hb, outputs_append, outputs_fillBuf, outputs, outputs_outs, filled]
+  · apply filterMap_eq_map'
+    intro b hb
+    have := hacc b hb
+    unfold Accepts at this
+    simp [stepBranch, hk b hb, this, filled]
+
+theorem passes_fr (bl : List (List α)) :
+    ∀ (act : List (Branch σ α)), (∀ b ∈ act, b.kind = .fillRequest) → (splitFrBlocks act bl).2 = false →
+      outputs (passes bl act).1 = (splitFrBlocks act bl).1.flatten ∧
+      ∀ b ∈ (passes bl act).2, b.kind = .fillRequest := by
+  induction bl with
+  | nil => intro act hk _; exact ⟨rfl, hk⟩
+  | cons blk rest ih =>
+    intro act hk hok
+    obtain ⟨f1, f2⟩ := splitFillAll_iff blk act
+    unfold splitFrBlocks at hok ⊢
+    cases hs : splitFillAll act blk with
+    | mk brs' st =>
+      cases st with
+      | true => simp [hs] at hok
+      | false =>
+        have hfalse : (splitFillAll act blk).2 = false := by rw [hs]
+        have hbrs' : brs' = act.map (fun b => filled b blk) := by rw [← f2 hfalse, hs]
+        obtain ⟨p1, p2⟩ := pass_fr blk act hk (f1.mp hfalse)
+        simp only [hs] at hok ⊢
+        rw [hbrs'] at hok ⊢
+        have hk' : ∀ b ∈ (splitRequest (act.map (fun b => filled b blk))).2, b.kind = .fillRequest := by
+          rw [splitRequest_snd]
+          intro b hb
+          simp only [List.mem_map] at hb
+          obtain ⟨c, ⟨d, hd, rfl⟩, rfl⟩ := hb
+          simp [filled, hk d hd]
+        obtain ⟨i1, i2⟩ := ih _ hk' hok
+        simp only [passes, outputs_append, p1, p2, i1, List.flatten_cons]
+        exact ⟨trivial, i2⟩
+
+theorem finalPass_fr_nonempty (act : List (Branch σ α)) (hk : ∀ b ∈ act, b.kind = .fillRequest) :
+    finalPass false act = [] := by
+  induction act with
+  | nil => rfl
+  | cons b r ih =>
+    simp [finalPass, hk b (List.mem_cons_self ..), ih (fun c hc => hk c (List.mem_cons_of_mem _ hc))]
+
+/-- ALL FILL/REQUEST: `run(flow)` yields what the Split yields when it is used through its
+common methods as `Split.run` itself uses a fill/request element — block by block `fill` every
+value, then `request()` (no branch signalling `LenaStopFill`); on an empty flow, one `request()`. -/
+theorem common_type_fill_request (s : Split σ α) (hv : s.Valid)
+    (hall : ∀ b ∈ s.branches, b.kind = .fillRequest) (flow : List α)
+    (hok : (splitFrBlocks s.branches (blocks s.bufsize flow)).2 = false) :
+    outputs (s.runTrace flow) =
+      if flow = [] then (splitRequest s.branches).1
+      else (splitFrBlocks s.branches (blocks s.bufsize flow)).1.flatten := by
+  rw [loop_refines_spec s hv]
+  unfold Split.runSpec
+  obtain ⟨p1, p2⟩ := passes_fr (blocks s.bufsize flow) s.branches hall hok
+  rw [outputs_append, p1]
+  cases flow with
+  | nil =>
+    simp only [blocks_nil, splitFrBlocks, List.flatten_nil, List.nil_append, ↓reduceIte, passes,
+      List.isEmpty_nil]
+    rw [finalPass_eq_flatMap true _ (Or.inl rfl), outputs_flatMap, splitRequest_fst]
+    apply flatMap_congr'
+    intro b hb
+    simp [finalOne, hall b hb, outputs, outputs_outs]
+  | cons x xs =>
+    obtain ⟨_, hbl⟩ := blocks_readBlock s.bufsize hv (x :: xs) (by simp)
+    have hne : (blocks s.bufsize (x :: xs)).isEmpty = false := by rw [hbl]; rfl
+    rw [hne, finalPass_fr_nonempty _ p2]
+    simp [outputs]
+
+/-! ## 8. Zip: tuples of the i-th results, up to the shortest -/
+
+/-- the `i`-th results of all sequences, if every one of them has an `i`-th result -/
+def colAt (i : Nat) : List (List α) → Option (List α)
+  | [] => some []
+  | r :: rest =>
+    match r[i]?, colAt i rest with
+    | some v, some vs => some (v :: vs)
+    | _, _ => none
+
+/-- `colAt` is defined exactly up to the shortest result list -/
+theorem colAt_eq_none_iff (i : Nat) (rs : List (List α)) :
+    colAt i rs = none ↔ ∃ r ∈ rs, r.length ≤ i := by
+  induction rs with
+  | nil => simp [colAt]
+  | cons r rest ih =>
+    simp only [colAt, List.mem_cons, exists_eq_or_imp]
+    cases h1 : r[i]? with
+    | none =>
+      simp only [true_iff]
+      left
+      exact List.getElem?_eq_none_iff.mp h1
+    | some v =>
+      have hlt : ¬ r.length ≤ i := by
+        intro h
+        rw [List.getElem?_eq_none_iff.mpr h] at h1
+        cases h1
+      cases h2 : colAt i rest with
+      | none => simp only [true_iff]; right; exact ih.mp h2
+      | some vs =>
+        simp only [reduceCtorEq, false_iff, not_or, hlt, not_false_eq_true, true_and]
+        intro h
+        rw [ih.mpr h] at h2
+        cases h2
+
+/-- … and then it is the tuple of the `i`-th results, in the order of the sequences -/
+theorem colAt_eq_some (i : Nat) (rs : List (List α)) (vs : List α) (h : colAt i rs = some vs) :
+    vs = rs.filterMap (·[i]?) ∧ vs.length = rs.length := by
+  induction rs generalizing vs with
+  | nil => simp [colAt] at h; subst h; simp
+  | cons r rest ih =>
+    simp only [colAt] at h
+    cases h1 : r[i]? with
+    | none => simp [h1] at h
+    | some v =>
+      cases h2 : colAt i rest with
+      | none => simp [h1, h2] at h
+      | some ws =>
+        simp only [h1, h2, Option.some.injEq] at h
+        subst h
+        obtain ⟨e1, e2⟩ := ih ws h2
+        simp [h1, ← e1, e2]
+
+theorem zipRound_none (rs : List (List α)) (h : zipRound rs = none) : ∀ i, colAt i rs = none := by
+  induction rs with
+  | nil => simp [zipRound] at h
+  | cons r rest ih =>
+    intro i
+    cases r with
+    | nil => simp [colAt]
+    | cons v r' =>
+      simp only [zipRound] at h
+      cases h2 : zipRound rest with
+      | none =>
+        simp only [colAt, ih h2 i]
+        cases (v :: r')[i]? <;> rfl
+      | some p => simp [h2] at h
+
+theorem zipRound_some (rs : List (List α)) (vs : List α) (ts : List (List α))
+    (h : zipRound rs = some (vs, ts)) :
+    colAt 0 rs = some vs ∧ (∀ i, colAt (i + 1) rs = colAt i ts) ∧
+      (∀ r rest, rs = r :: rest → ∃ t trest, ts = t :: trest ∧ t.length + 1 = r.length) := by
+  induction rs generalizing vs ts with
+  | nil =>
+    simp only [zipRound, Option.some.injEq, Prod.mk.injEq] at h
+    obtain ⟨rfl, rfl⟩ := h
+    exact ⟨rfl, fun _ => rfl, fun _ _ h => by cases h⟩
+  | cons r rest ih =>
+    cases r with
+    | nil => simp [zipRound] at h
+    | cons v r' =>
+      simp only [zipRound] at h
+      cases h2 : zipRound rest with
+      | none => simp [h2] at h
+      | some p =>
+        obtain ⟨ws, us⟩ := p
+        simp only [h2, Option.some.injEq, Prod.mk.injEq] at h
+        obtain ⟨rfl, rfl⟩ := h
+        obtain ⟨i1, i2, _⟩ := ih ws us h2
+        refine ⟨by simp [colAt, i1], fun i => by simp [colAt, i2 i], ?_⟩
+        intro r rest' hr
+        cases hr
+        exact ⟨r', us, rfl, rfl⟩
+
+theorem zipYieldFuel_getElem? :
+    ∀ (fuel : Nat) (r : List α) (rest : List (List α)), r.length < fuel →
+      ∀ i, (zipYieldFuel fuel (r :: rest))[i]? = colAt i (r :: rest) := by
+  intro fuel
+  induction fuel with
+  | zero => intro r rest h; omega
+  | succ fuel ih =>
+    intro r rest h i
+    simp only [zipYieldFuel]
+    cases hz : zipRound (r :: rest) with
+    | none => simp [zipRound_none _ hz i]
+    | some p =>
+      obtain ⟨vs, ts⟩ := p
+      obtain ⟨z1, z2, z3⟩ := zipRound_some _ vs ts hz
+      obtain ⟨t, trest, rfl, hlen⟩ := z3 r rest rfl
+      cases i with
+      | zero => simp [z1]
+      | succ i =>
+        simp only [List.getElem?_cons_succ]
+        rw [z2 i]
+        exact ih t trest (by omega) i
+
+/-- `Zip._yield`: the `i`-th value yielded is the tuple of the `i`-th results of all sequences,
+and there are as many as the shortest result list has (`colAt_eq_none_iff`, `colAt_eq_some`) -/
+theorem zip_yield_ith (rs : List (List α)) (hne : rs ≠ []) (i : Nat) :
+    (zipYield rs)[i]? = colAt i rs := by
+  cases rs with
+  | nil => exact absurd rfl hne
+  | cons r rest => exact zipYieldFuel_getElem? (r.length + 1) r rest (by omega) i
+
+theorem zipCollect_eq (get : Ops σ α → σ → List α × σ) (brs : List (Branch σ α)) :
+    zipCollect get brs = brs.map (fun b => (get b.ops b.st).1) := by
+  induction brs with
+  | nil => rfl
+  | cons b r ih => simp [zipCollect, ih]
+
+/-- *"a Zip of such branches yields the tuples of their i-th results"* (fill/compute branches;
+the same with `request` for fill/request branches) -/
+theorem zip_ith (brs : List (Branch σ α)) (hne : brs ≠ []) (i : Nat) :
+    (zipCompute brs)[i]? = colAt i (brs.map (fun b => (b.ops.compute b.st).1)) ∧
+    (zipRequest brs)[i]? = colAt i (brs.map (fun b => (b.ops.request b.st).1)) := by
+  unfold zipCompute zipRequest
+  rw [zipCollect_eq, zipCollect_eq]
+  have h1 : brs.map (fun b => (b.ops.compute b.st).1) ≠ [] := by cases brs <;> simp_all
+  have h2 : brs.map (fun b => (b.ops.request b.st).1) ≠ [] := by cases brs <;> simp_all
+  exact ⟨zip_yield_ith _ h1 i, zip_yield_ith _ h2 i⟩
+
+example : zipYield [[1, 2, 3], [10, 20], [100, 200, 300]] = [[1, 10, 100], [2, 20, 200]] := by decide
+
+/-! ## 9. construction: classification of the arguments, argument checks -/
+
+/-- *"Source is not checked, because it must be Source explicitly"*: nothing but a `Source` is
+classified as a source -/
+theorem classify_source_iff (ok : Bool) (o : Obj) : classify ok o = .ok .source ↔ o = .source := by
+  cases o with
+  | source => simp [classify]
+  | fcSeq => simp [classify]
+  | frSeq => simp [classify]
+  | seq => simp [classify]
+  | el c =>
+    simp only [classify, reduceCtorEq, iff_false]
+    split <;> (try split) <;> (try split) <;> simp
+  | tuple els =>
+    simp only [classify, reduceCtorEq, iff_false]
+    repeat' split
+    all_goals simp
+
+/-- the explicit sequence types keep their type -/
+theorem classify_explicit (ok : Bool) :
+    classify ok .source = .ok .source ∧ classify ok .fcSeq = .ok .fillCompute ∧
+    classify ok .frSeq = .ok .fillRequest ∧ classify ok .seq = .ok .sequence := ⟨rfl, rfl, rfl, rfl⟩
+
+/-- a single element: fill/compute wins over fill/request, which wins over a Run element /
+callable; anything else is rejected with `LenaTypeError` -/
+theorem classify_el (ok : Bool) (c : ElCaps) :
+    classify ok (.el c) =
+      if c.fill && c.compute then .ok .fillCompute
+      else if c.fill && c.request then .ok .fillRequest
+      else if c.run || c.call then .ok .sequence
+      else .error .lenaTypeError := by
+  simp only [classify, ElCaps.isFC, ElCaps.isFR, ElCaps.runnable]
+  by_cases h : (c.fill && c.compute) = true <;> simp [h]
+
+/-- a tuple that contains a fill/compute element is a fill/compute branch or an error — never
+a fill/request branch or a plain Sequence -/
+theorem classify_tuple_fc (ok : Bool) (els : List ElCaps) (h : els.any ElCaps.isFC = true) :
+    classify ok (.tuple els) = .ok .fillCompute ∨ classify ok (.tuple els) = .error .lenaTypeError := by
+  simp only [classify, h, ↓reduceIte]
+  split <;> simp
+
+/-- `seqs` must be a list -/
+theorem splitInit_not_list (objs : List Obj) (bs : Option Int) :
+    splitInit false objs bs = .error .lenaTypeError := rfl
+
+/-- a `bufsize` that is not `None` or a natural number is rejected; a Split that was
+constructed has a valid `bufsize` (the hypothesis `Split.Valid` of the theorems above) -/
+theorem splitInit_valid (isList : Bool) (objs : List Obj) (bs : Option Int) (kinds : List Kind)
+    (b : Option Nat) (h : splitInit isList objs bs = .ok (kinds, b)) :
+    b ≠ some 0 ∧ (∀ n, bs = some n → 1 ≤ n ∧ b = some n.toNat) ∧ (bs = none → b = none) := by
+  unfold splitInit at h
+  cases isList with
+  | false => simp at h
+  | true =>
+    simp only [Bool.not_true, Bool.false_eq_true, ↓reduceIte] at h
+    split at h
+    · cases h
+    · cases bs with
+      | none =>
+        simp only [Except.ok.injEq, Prod.mk.injEq] at h
+        obtain ⟨_, rfl⟩ := h
+        simp
+      | some n =>
+        simp only at h
+        split at h
+        · cases h
+        · simp only [Except.ok.injEq, Prod.mk.injEq] at h
+          obtain ⟨_, rfl⟩ := h
+          rename_i hn
+          refine ⟨?_, ?_, by simp⟩
+          · simp only [ne_eq, Option.some.injEq]; omega
+          · intro m hm; cases hm; exact ⟨by omega, rfl⟩
+
+theorem splitInit_bad_bufsize (isList : Bool) (objs : List Obj) (n : Int) (hn : n < 1) :
+    ∃ e, splitInit isList objs (some n) = .error e := by
+  unfold splitInit
+  cases isList with
+  | false => exact ⟨_, rfl⟩
+  | true =>
+    simp only [Bool.not_true, Bool.false_eq_true, ↓reduceIte]
+    split
+    · exact ⟨_, rfl⟩
+    · simp [hn]
+
+/-- `Zip` needs at least one sequence, one common type, and that type must be fill/compute or
+fill/request -/
+theorem zipInit_ok_iff (objs : List Obj) (t : ZipType) :
+    zipInit objs = .ok t ↔ ∃ kinds, classifyAll true objs = .ok kinds ∧ kinds ≠ [] ∧
+      ∀ k ∈ kinds, k = (match t with
+        | .fillCompute => Kind.fillCompute
+        | .fillRequest => Kind.fillRequest) := by
+  unfold zipInit
+  cases objs with
+  | nil =>
+    simp only [List.isEmpty_nil, ↓reduceIte, reduceCtorEq, false_iff, not_exists, not_and]
+    intro kinds h
+    simp [classifyAll] at h
+    subst h
+    simp
+  | cons o rest =>
+    simp only [List.isEmpty_cons, Bool.false_eq_true, ↓reduceIte]
+    cases hc : classifyAll true (o :: rest) with
+    | error e => simp
+    | ok kinds =>
+      simp only [Except.ok.injEq, exists_eq_left']
+      unfold zipTypeOf
+      by_cases h1 : allKind .fillCompute kinds = true
+      · have := (allKind_iff _ _).mp h1
+        cases t with
+        | fillCompute => simp only [h1, ↓reduceIte, true_iff]; exact this
+        | fillRequest =>
+          simp only [h1, ↓reduceIte, Except.ok.injEq, reduceCtorEq, false_iff, not_and]
+          intro hne hall
+          cases kinds with
+          | nil => exact hne rfl
+          | cons k ks =>
+            have a := this.2 k (List.mem_cons_self ..)
+            have b := hall k (List.mem_cons_self ..)
+            rw [a] at b
+            cases b
+      · by_cases h2 : allKind .fillRequest kinds = true
+        · have := (allKind_iff _ _).mp h2
+          cases t with
+          | fillRequest => simp only [h1, h2, Bool.false_eq_true, ↓reduceIte, true_iff]; exact this
+          | fillCompute =>
+            simp only [h1, h2, Bool.false_eq_true, ↓reduceIte, Except.ok.injEq, reduceCtorEq, false_iff, not_and]
+            intro hne hall
+            cases kinds with
+            | nil => exact hne rfl
+            | cons k ks =>
+              have a := this.2 k (List.mem_cons_self ..)
+              have b := hall k (List.mem_cons_self ..)
+              rw [a] at b
+              cases b
+        · have n1 := fun h => h1 ((allKind_iff _ _).mpr h)
+          have n2 := fun h => h2 ((allKind_iff _ _).mpr h)
+          simp only [h1, h2, Bool.false_eq_true, ↓reduceIte]
+          constructor
+          · intro h
+            split at h <;> cases h
+          · intro ⟨hne, hall⟩
+            cases t with
+            | fillCompute => exact absurd ⟨hne, hall⟩ n1
+            | fillRequest => exact absurd ⟨hne, hall⟩ n2
+
+/-! ## 9b. further facts about the schedule -/
+
+theorem life_take (bl : List (List α)) :
+    ∀ (o : Option (Branch σ α)) (n : Nat), ((life o bl).1).take n = (life o (bl.take n)).1 := by
+  induction bl with
+  | nil => intro o n; simp [life]
+  | cons blk rest ih =>
+    intro o n
+    cases n with
+    | zero => simp [life]
+    | succ n => simp [life, ih]
+
+/-- *block by block*: what a branch contributes to block `k` is determined by the first `k+1`
+blocks — `Split.run` is an online algorithm, a later part of the flow cannot change what was
+yielded for an earlier block -/
+theorem contribution_causal (b : Branch σ α) (bl bl' : List (List α)) (k : Nat)
+    (h : bl.take (k + 1) = bl'.take (k + 1)) : contribution b bl k = contribution b bl' k := by
+  unfold contribution
+  have e : ∀ (l : List (List (Ev α))), l[k]? = (l.take (k + 1))[k]? := by
+    intro l
+    rw [List.getElem?_take]
+    simp
+  rw [e (life (some b) bl).1, e (life (some b) bl').1, life_take, life_take, h]
+
+/-- `Split._fill` when a branch signals `LenaStopFill`: the branches before it have been filled
+with the value, the signalling branch is left as its own `fill` left it, the branches after it
+have not seen the value, and the exception leaves `_fill` -/
+theorem splitFill_stop (x : α) (pre post : List (Branch σ α)) (b : Branch σ α)
+    (hpre : ∀ c ∈ pre, (c.ops.fill c.st x).2 = false) (hb : (b.ops.fill b.st x).2 = true) :
+    splitFill x (pre ++ b :: post) =
+      (pre.map (fun c => filled c [x]) ++ { b with st := (b.ops.fill b.st x).1 } :: post, true) := by
+  induction pre with
+  | nil =>
+    obtain ⟨s', st, hf⟩ : ∃ s' st, b.ops.fill b.st x = (s', st) := ⟨_, _, rfl⟩
+    cases st with
+    | true => simp [splitFill, hf]
+    | false => simp [hf] at hb
+  | cons c r ih =>
+    obtain ⟨s', st, hf⟩ : ∃ s' st, c.ops.fill c.st x = (s', st) := ⟨_, _, rfl⟩
+    have hc := hpre c (List.mem_cons_self ..)
+    cases st with
+    | true => simp [hf] at hc
+    | false =>
+      have e : filled c [x] = { c with st := s' } := by rw [filled_one c x hc, hf]
+      simp only [List.cons_append, splitFill, hf, List.map_cons, e]
+      rw [ih (fun d hd => hpre d (List.mem_cons_of_mem _ hd))]
+
+/-! ## 9c. a common-type Split as a branch of another Split: "with the same meaning" -/
+
+/-- filling a nested Split through its `fill` value by value until `LenaStopFill` is
+`splitFillAll` on its branches -/
+theorem fillBuf_splitOps (i : Nat) (xs : List α) :
+    ∀ (brs : List (Branch σ α)), (fillBuf i splitOps brs xs).2 = splitFillAll brs xs := by
+  induction xs with
+  | nil => intro brs; rfl
+  | cons x xs ih =>
+    intro brs
+    obtain ⟨brs', st, hf⟩ : ∃ brs' st, splitFill x brs = (brs', st) := ⟨_, _, rfl⟩
+    have hf' : (splitOps : Ops (List (Branch σ α)) α).fill brs x = (brs', st) := hf
+    cases st with
+    | true => rw [fillBuf_cons_stop i splitOps brs brs' x xs hf']; simp [splitFillAll, hf]
+    | false => rw [fillBuf_cons_ok i splitOps brs brs' x xs hf']; simp [splitFillAll, hf, ih]
+
+/-- NESTED FILL/COMPUTE: a Split of fill/compute branches used as a branch anywhere inside another
+Split (any other branches, any `bufsize` of the outer one) yields there exactly what it yields
+when it is run alone on the same flow (with any `bufsize`), as long as none of its branches
+signals `LenaStopFill` -/
+theorem nested_fill_compute (outer : Split (List (Branch σ α)) α) (hv : outer.Valid)
+    (hnd : (outer.branches.map (·.id)).Nodup) (ob : Branch (List (Branch σ α)) α)
+    (hob : ob ∈ outer.branches) (hk : ob.kind = .fillCompute) (hops : ob.ops = splitOps)
+    (hall : ∀ b ∈ ob.st, b.kind = .fillCompute) (flow : List α)
+    (hok : (splitFillAll ob.st flow).2 = false) (bs : Option Nat) (hbs : bs ≠ some 0) (cb : Bool) :
+    outputsOf ob.id (outer.runTrace flow) =
+      outputs (({ branches := ob.st, bufsize := bs, copyBuf := cb } : Split σ α).runTrace flow) := by
+  unfold outputsOf
+  rw [projection_fillCompute outer hv hnd ob hob hk flow, fcTrace, outputs_append, outputs_fillBuf]
+  rw [common_type_fill_compute ({ branches := ob.st, bufsize := bs, copyBuf := cb } : Split σ α) hbs hall flow hok]
+  simp only [outputs, outputs_outs, List.nil_append, hops, fillBuf_splitOps]
+  rfl
+
+theorem outputs_frTrace_splitOps (i : Nat) (bl : List (List α)) :
+    ∀ (inner : List (Branch σ α)), (splitFrBlocks inner bl).2 = false →
+      outputs (frTrace i splitOps inner bl) = (splitFrBlocks inner bl).1.flatten := by
+  induction bl with
+  | nil => intro inner _; rfl
+  | cons blk rest ih =>
+    intro inner hok
+    have hf := fillBuf_splitOps i blk inner
+    unfold splitFrBlocks at hok ⊢
+    unfold frTrace
+    cases hs : splitFillAll inner blk with
+    | mk brs' st =>
+      rw [hs] at hf
+      cases st with
+      | true => simp [hs] at hok
+      | false =>
+        simp only [hs] at hok ⊢
+        have h1 : (fillBuf i splitOps inner blk).2.1 = brs' := by rw [hf]
+        have h2 : (fillBuf i splitOps inner blk).2.2 = false := by rw [hf]
+        simp only [h1, h2, Bool.false_eq_true, ↓reduceIte, outputs_append, outputs_fillBuf, outputs,
+          outputs_outs, List.nil_append, List.flatten_cons]
+        rw [show (splitOps : Ops (List (Branch σ α)) α).request brs' = splitRequest brs' from rfl]
+        rw [ih _ hok]
+
+/-- NESTED FILL/REQUEST: a Split of fill/request branches used as a branch inside another Split
+yields there what it yields when it is run alone on the same flow with the `bufsize` of the
+enclosing Split (no branch signalling `LenaStopFill`) -/
+theorem nested_fill_request (outer : Split (List (Branch σ α)) α) (hv : outer.Valid)
+    (hnd : (outer.branches.map (·.id)).Nodup) (ob : Branch (List (Branch σ α)) α)
+    (hob : ob ∈ outer.branches) (hk : ob.kind = .fillRequest) (hops : ob.ops = splitOps)
+    (hall : ∀ b ∈ ob.st, b.kind = .fillRequest) (flow : List α)
+    (hok : (splitFrBlocks ob.st (blocks outer.bufsize flow)).2 = false) (cb : Bool) :
+    outputsOf ob.id (outer.runTrace flow) =
+      outputs (({ branches := ob.st, bufsize := outer.bufsize, copyBuf := cb } : Split σ α).runTrace flow) := by
+  unfold outputsOf
+  rw [projection outer hv hnd ob hob, branchTrace_fillRequest ob hk]
+  rw [common_type_fill_request ({ branches := ob.st, bufsize := outer.bufsize, copyBuf := cb } : Split σ α)
+    hv hall flow hok]
+  cases flow with
+  | nil => simp [outputs, outputs_outs, hops, splitOps]
+  | cons x xs =>
+    obtain ⟨_, hbl⟩ := blocks_readBlock outer.bufsize hv (x :: xs) (by simp)
+    have hne : blocks outer.bufsize (x :: xs) ≠ [] := by rw [hbl]; simp
+    simp only [hne, ↓reduceIte, reduceCtorEq, hops]
+    exact outputs_frTrace_splitOps _ _ _ hok
+
+/-! ## 10. non-vacuity: a concrete Split that satisfies the hypotheses used above -/
+
+section demo
+
+/-- one object playing all four roles: it stores at most two values (`fill` raises
+`LenaStopFill` on a third), `compute`/`request` yield the sum (`request` forgets the values),
+`run` adds 100 to every value, `call` yields 7, 8 -/
+def demoOps : Ops (List Nat) Nat :=
+  { call := fun s => ([7, 8], s)
+    fill := fun s x => if s.length ≥ 2 then (s, true) else (s ++ [x], false)
+    compute := fun s => ([s.sum], s)
+    request := fun s => ([s.sum], [])
+    run := fun s xs => (xs.map (· + 100), s) }
+
+def demoBranches : List (Branch (List Nat) Nat) :=
+  mkBranches 0 [(.sequence, demoOps, []), (.fillRequest, demoOps, []), (.source, demoOps, []),
+    (.fillCompute, demoOps, [])]
+
+def demoSplit (bs : Option Nat) : Split (List Nat) Nat :=
+  { branches := demoBranches, bufsize := bs, copyBuf := true }
+
+-- the hypotheses `Valid`, `Nodup`, membership and kind are satisfiable together
+example : (demoSplit (some 2)).Valid := by simp [Split.Valid, demoSplit]
+example : ((demoSplit (some 2)).branches.map (·.id)).Nodup := by decide
+example : (demoSplit (some 2)).branches[3]?.map (·.kind) = some .fillCompute := by decide
+
+-- blocks [1,2] [3]: run on each block, request after each block, the Source once in the first
+-- block, the fill/compute branch stops on the third value and is computed at once
+example : (demoSplit (some 2)).run [1, 2, 3] = [101, 102, 3, 7, 8, 103, 3, 3] := by decide
+example : (demoSplit none).run [1, 2, 3] = [101, 102, 103, 3, 7, 8, 3] := by decide
+example : (demoSplit (some 1000)).run [] = [0, 7, 8, 0] := by decide
+
+-- an instance of the hypothesis of `stopfill_dropped`: the events of the fill/compute branch
+example : proj 3 ((demoSplit (some 2)).runTrace [1, 2, 3]) =
+    [.fill 3 1 false, .fill 3 2 false] ++ .fill 3 3 true :: [.compute 3, .out 3 3] := by decide
+
+-- … and of the fill/request branch with one block of three values (it stops inside the block)
+example : proj 1 ((demoSplit none).runTrace [1, 2, 3]) =
+    [.fill 1 1 false, .fill 1 2 false] ++ .fill 1 3 true :: [.request 1, .out 1 3] := by decide
+
+/-- `demoOps.run` is a per-value map, hence streaming -/
+example : Streaming demoOps :=
+  streaming_of_perValue demoOps (fun x => [x + 100]) (by
+    intro s xs
+    simp only [demoOps, Prod.mk.injEq, and_true]
+    induction xs with
+    | nil => rfl
+    | cons x r ih => simp [ih])
+
+-- hypotheses of the common-type theorems
+def demoFC : List (Branch (List Nat) Nat) :=
+  mkBranches 0 [(.fillCompute, demoOps, []), (.fillCompute, demoOps, [5])]
+example : (splitFillAll demoFC [1]).2 = false := by decide
+example : (splitFillAll demoFC [1, 2]).2 = true := by decide
+example : outputs (({ branches := demoFC, bufsize := some 1, copyBuf := false } : Split _ _).runTrace [1])
+    = (splitCompute (splitFillAll demoFC [1]).1).1 := by decide
+def demoFR : List (Branch (List Nat) Nat) :=
+  mkBranches 0 [(.fillRequest, demoOps, []), (.fillRequest, demoOps, [])]
+example : (splitFrBlocks demoFR (blocks (some 2) [1, 2, 3])).2 = false := by decide
+example : (splitFrBlocks demoFR (blocks (some 2) [1, 2, 3])).1 = [[3, 3], [3, 3]] := by decide
+
+-- a fill/compute Split nested in another Split (hypotheses of `nested_fill_compute`)
+def demoOuter : Split (List (Branch (List Nat) Nat)) Nat :=
+  { branches := [{ id := 0, kind := .sequence, ops := splitOps, st := [] },
+                 { id := 1, kind := .fillCompute, ops := splitOps, st := demoFC }],
+    bufsize := some 1, copyBuf := true }
+example : (demoOuter.branches.map (·.id)).Nodup := by decide
+example : outputsOf 1 (demoOuter.runTrace [1]) =
+    outputs (({ branches := demoFC, bufsize := none, copyBuf := false } : Split _ _).runTrace [1]) := by decide
+example : outputsOf 1 (demoOuter.runTrace [1]) = [1, 6] := by decide
+
+end demo
+
+/-! ## 11. the harness elements that the check treats as "per value" are streaming -/
+
+theorem runningLoop_append (tag : Nat) (ys : List V) :
+    ∀ (n : Nat) (xs : List V), runningLoop tag n (xs ++ ys) =
+      ((runningLoop tag n xs).1 ++ (runningLoop tag (runningLoop tag n xs).2 ys).1,
+        (runningLoop tag (runningLoop tag n xs).2 ys).2) := by
+  intro n xs
+  induction xs generalizing n with
+  | nil => simp [runningLoop]
+  | cons x xs ih => simp [runningLoop, ih]
+
+/-- `map`, `lam`, `even`, `dup` and `running` (the kinds `PER_VALUE_SQ` of `harness/props/c03.py`,
+for which the oracle demands independence of `bufsize`) satisfy the hypothesis of
+`bufsize_independent_per_value` -/
+theorem harness_per_value_streaming (tag : Nat) (v : SqKind)
+    (hv : v = .map ∨ v = .lam ∨ v = .even ∨ v = .dup ∨ v = .running) :
+    Streaming ((BSpec.sq v).ops tag) := by
+  rcases hv with rfl | rfl | rfl | rfl | rfl
+  · exact ⟨fun s => rfl, fun s xs ys => by simp [BSpec.ops, sqRun]⟩
+  · exact ⟨fun s => rfl, fun s xs ys => by simp [BSpec.ops, sqRun]⟩
+  · exact ⟨fun s => rfl, fun s xs ys => by simp [BSpec.ops, sqRun]⟩
+  · exact ⟨fun s => rfl, fun s xs ys => by simp [BSpec.ops, sqRun]⟩
+  · exact ⟨fun s => rfl, fun s xs ys => by simp [BSpec.ops, sqRun, runningLoop_append]⟩
+
+/-- … while `mapEnd` and `sumBlock` do not (their results depend on the blocks) -/
+example : ¬ Streaming ((BSpec.sq .sumBlock).ops 0) := by
+  intro h
+  have := h.run_nil {}
+  simp [BSpec.ops, sqRun] at this
+
 end Lena.C03
